@@ -877,10 +877,13 @@ func runC08(c *Ctx) {
 	doneRoot := map[string]bool{}
 	for _, h := range hs {
 		k := rootOf(h.sig)
-		budget := 60
+		budget := 30
 		if !doneRoot[k] {
-			budget = 500
+			budget = 300
 			doneRoot[k] = true
+		}
+		if c.Thor {
+			budget *= 3
 		}
 		shrink(c, h, func(cs *Case, r *Res) string { s, _, _ := c08Sig(cs, r); return s }, budget)
 	}
